@@ -489,7 +489,7 @@ def explore(prop, tier, seed):
             sp = [s + suffix for s in preemption_specs(r[3], len(j[3]), per if r[2] == "seq" else max(4, per // 2))]
             sp += window_specs(r[3], len(j[3]), suffix, 30 if quick else 250)
             if r[2] == "seq":
-                sp += freeze_specs(r[3], len(j[3]), 2 if quick else 12)
+                sp += freeze_specs(r[3], len(j[3]), 4 if quick else 12)
             if sp:
                 jobs2.append((j[0], j[1], j[2], j[3], sp))
     shards = [jobs2[k::16] for k in range(16)]
